@@ -243,5 +243,19 @@ class VariableRT(Harness):
         v = st["v"]
         return [("rt.leaf", band(res.id == v.id, res.bounds.lower == v.bounds.lower, res.bounds.upper == v.bounds.upper))]
 
+    def concretise(self, case, k, model, c, st):
+        v = st["v"]
+        return {"lo": _mv(model, v.bounds.lower.t), "hi": _mv(model, v.bounds.upper.t)}
+
+    def replay(self, w):
+        import json
+        import puan
+        import puan.logic.plog as pg
+        v = puan.variable("x", (w["lo"], w["hi"]))
+        js = json.loads(json.dumps(v.to_json()))
+        y = pg.from_json(js)
+        ok = y.id == v.id and y.bounds.as_tuple() == v.bounds.as_tuple()
+        return {"violated": [] if ok else ["rt.leaf"], "detail": {"variable": repr(v), "json": js, "roundtrip": repr(y)}}
+
 
 HARNESSES = [VariableRT(), AtLeastRT(), AtMostRT(), AllRT(), AnyRT(), XorRT(), XNorRT(), ImplyRT()]
